@@ -556,6 +556,19 @@ func TestReplay(t *testing.T) {
 	if err != nil {
 		t.Fatal(err)
 	}
+	// a case of the tree unit
+	var tc TreeCase
+	var thr struct {
+		Case TreeCase `json:"case"`
+	}
+	if json.Unmarshal(b, &tc) == nil && len(tc.Scenario.Tree) > 0 {
+		checkTree(t, t.Fatalf, tc)
+		return
+	}
+	if json.Unmarshal(b, &thr) == nil && len(thr.Case.Scenario.Tree) > 0 {
+		checkTree(t, t.Fatalf, thr.Case)
+		return
+	}
 	var c Case
 	if err := json.Unmarshal(b, &c); err != nil {
 		// hang reports wrap the case
